@@ -189,7 +189,11 @@ def _eval_assign_inner(sim, lhs, lhs_start, rhs, rhs_len):
         mask = (1 << lhs_stop) - (1 << lhs_start)
         sim.slots[slot].write(lhs._index, rhs << lhs_start, mask)
     elif isinstance(lhs, Slice):
-        _eval_assign_inner(sim, lhs.value, lhs_start + lhs.start, rhs, rhs_len)
+        # Bits that fall outside of the slice are dropped (not written to the rest of the value).
+        if lhs_start >= len(lhs):
+            return
+        rhs_len = min(rhs_len, len(lhs) - lhs_start)
+        _eval_assign_inner(sim, lhs.value, lhs_start + lhs.start, rhs & ((1 << rhs_len) - 1), rhs_len)
     elif isinstance(lhs, Concat):
         part_stop = 0
         for part in lhs.parts:
@@ -214,9 +218,13 @@ def _eval_assign_inner(sim, lhs, lhs_start, rhs, rhs_len):
             part_rhs &= (1 << part_rhs_len) - 1
             _eval_assign_inner(sim, part, part_lhs_start, part_rhs, part_rhs_len)
     elif isinstance(lhs, Part):
+        # Likewise for the bits that fall outside of the selected part.
+        if lhs_start >= lhs.width:
+            return
+        rhs_len = min(rhs_len, lhs.width - lhs_start)
         offset = eval_value(sim, lhs.offset)
         offset *= lhs.stride
-        _eval_assign_inner(sim, lhs.value, lhs_start + offset, rhs, rhs_len)
+        _eval_assign_inner(sim, lhs.value, lhs_start + offset, rhs & ((1 << rhs_len) - 1), rhs_len)
     elif isinstance(lhs, SwitchValue):
         test = eval_value(sim, lhs.test)
         for patterns, val in lhs.cases:
